@@ -316,6 +316,14 @@ func c15Gen() *rapid.Generator[c15Case] {
 		if !fsOp && rapid.IntRange(0, 39).Draw(t, "long") == 0 {
 			withLongName(t, f)
 		}
+		if !fsOp && rapid.IntRange(0, 24).Draw(t, "oneRow") == 0 {
+			// the whole input is ONE row, with and without its line terminator, read through a reader that can tell its length
+			n := rapid.SampledFrom([]int{100, 4095, 4096, 5000, 65000, 65534, 65535, 65536, 65540, 70000, 200000}).Draw(t, "rowLen")
+			c := c15Case{Forest: model.Forest{{Name: strings.Repeat("r", n)}}, Op: op, IOKind: rapid.SampledFrom([]int{3, 7, 0}).Draw(t, "lenReader")}
+			c.Sp1 = model.Spelling{Unit: 2, NoFinalN: true}
+			c.Sp2 = model.Spelling{Unit: 2}
+			return c
+		}
 		c := c15Case{Forest: f, Op: op}
 		c.IOKind = rapid.SampledFrom([]int{0, 0, 0, 3, 4, 5, 7}).Draw(t, "ioKind")
 		c.Sp1 = genSpelling(f.HeadingOK()).Draw(t, "sp1")
